@@ -131,6 +131,10 @@ def handle : List String → Option String
         match getNat kv "root" with
         | some root => some (if planOKb dag root then "OK" else "FAIL")
         | none => some "BAD params"
+      | "substok" =>
+        match getNat kv "root" with
+        | some root => some (if substOKb dag root then "OK" else "FAIL")
+        | none => some "BAD params"
       | "measure" =>
         match getNat kv "root" with
         | some root => match globalMaps dag root with
